@@ -77,6 +77,8 @@ type Case struct {
 	// Obs: an Observability implementation is installed as well (tracing in
 	// production).  Who is told about a persistence failure does not depend on it.
 	Obs bool `json:"obs,omitempty"`
+	// ViaAny: events are published through the static type any.
+	ViaAny bool `json:"via_any,omitempty"`
 }
 
 // obsPlain is an Observability that derives a context of its own at every start.
@@ -348,19 +350,19 @@ func run(c *Case) *vkit.Outcome {
 			case "badchan":
 				e := BadChan{ID: id, C: make(chan int)}
 				expect[id] = exp{p.Kind, true, reflect.TypeOf(e), false}
-				publish(bus, c.UseCtx, e)
+				publish(bus, c.UseCtx, c.ViaAny, e)
 			case "badfunc":
 				e := BadFunc{ID: id, F: func() {}}
 				expect[id] = exp{p.Kind, true, reflect.TypeOf(e), false}
-				publish(bus, c.UseCtx, e)
+				publish(bus, c.UseCtx, c.ViaAny, e)
 			case "badnan":
 				e := BadNaN{ID: id, F: math.NaN()}
 				expect[id] = exp{p.Kind, true, reflect.TypeOf(e), false}
-				publish(bus, c.UseCtx, e)
+				publish(bus, c.UseCtx, c.ViaAny, e)
 			case "badmarshal":
 				e := BadM{ID: id}
 				expect[id] = exp{"badchan", true, reflect.TypeOf(e), false}
-				publish(bus, c.UseCtx, e)
+				publish(bus, c.UseCtx, c.ViaAny, e)
 			case "dynok", "dynreject":
 				e := Dyn{ID: id, Payload: map[string]any{"k": []any{1, "two"}}, M: map[string]any{"x": id}}
 				failed := p.Kind == "dynreject" || sqlClosed
@@ -368,15 +370,15 @@ func run(c *Case) *vkit.Outcome {
 				if !failed {
 					okOrder = append(okOrder, id)
 				}
-				publish(bus, c.UseCtx, e)
+				publish(bus, c.UseCtx, c.ViaAny, e)
 			case "dynbad":
 				e := Dyn{ID: id, Payload: make(chan int)}
 				expect[id] = exp{"badchan", true, reflect.TypeOf(e), false}
-				publish(bus, c.UseCtx, e)
+				publish(bus, c.UseCtx, c.ViaAny, e)
 			case "dynbadmap":
 				e := Dyn{ID: id, Payload: "fine", M: map[string]any{"f": func() {}}}
 				expect[id] = exp{"badfunc", true, reflect.TypeOf(e), false}
-				publish(bus, c.UseCtx, e)
+				publish(bus, c.UseCtx, c.ViaAny, e)
 			case "lostack":
 				// the store wrote the record and then reported an error: one
 				// report, one Append call, and the record (the store's doing)
@@ -387,7 +389,7 @@ func run(c *Case) *vkit.Outcome {
 				if present {
 					okOrder = append(okOrder, id)
 				}
-				publish(bus, c.UseCtx, e)
+				publish(bus, c.UseCtx, c.ViaAny, e)
 			case "slowok":
 				// the memory store ignores the expired context and appends:
 				// a success, nothing to report; SQLite refuses an expired
@@ -398,7 +400,7 @@ func run(c *Case) *vkit.Outcome {
 				// store actually answered.
 				e := Good{ID: id, S: p.Kind}
 				innerAppendFailed.Store(false)
-				publish(bus, c.UseCtx, e)
+				publish(bus, c.UseCtx, c.ViaAny, e)
 				failed := innerAppendFailed.Load() || sqlClosed
 				kind := "ok"
 				if failed {
@@ -436,7 +438,7 @@ func run(c *Case) *vkit.Outcome {
 				if !failed {
 					okOrder = append(okOrder, id)
 				}
-				publish(bus, c.UseCtx, e)
+				publish(bus, c.UseCtx, c.ViaAny, e)
 			}
 		}()
 		if panicked != nil {
@@ -624,7 +626,17 @@ func run(c *Case) *vkit.Outcome {
 	return o
 }
 
-func publish[T any](bus *eventbus.EventBus, useCtx bool, e T) {
+func publish[T any](bus *eventbus.EventBus, useCtx, viaAny bool, e T) {
+	if viaAny {
+		// through the static type any: the event's type is its dynamic type
+		var a any = e
+		if useCtx {
+			eventbus.PublishContext(bus, context.Background(), a)
+		} else {
+			eventbus.Publish(bus, a)
+		}
+		return
+	}
 	if useCtx {
 		eventbus.PublishContext(bus, context.Background(), e)
 	} else {
